@@ -98,18 +98,53 @@ struct C10 : Scenario {
 		p.seti("euid", rng.chance(1, 2) ? 0 : 1000);
 		int n = 1 + (int) rng.below(6);
 		std::vector<std::string> linknames;
+		// scripted shape, one run in twelve: a chain of harmless links leading to a directory, entries written through the
+		// chain, and then one link of the chain replaced by a dangerous one (names alias each other, so "longest path
+		// first" alone does not order the deferred links)
+		struct Spec { char kind; std::string path, target; };
+		std::vector<Spec> script;
+		if (rng.chance(1, 12)) {
+			auto nm = [&](size_t len) { std::string s; for (size_t k = 0; k < len; ++k) s.push_back((char) ('a' + rng.below(26))); return s; };
+			int depth = 1 + (int) rng.below(3);
+			std::vector<std::string> chain;
+			chain.push_back(nm(1 + rng.below(2)));
+			for (int k = 1; k <= depth; ++k) chain.push_back(nm(1 + rng.below(7)));
+			bool uniq = true;
+			for (size_t a = 0; a < chain.size(); ++a) for (size_t b = a + 1; b < chain.size(); ++b) if (chain[a] == chain[b]) uniq = false;
+			if (uniq) {
+				static const char *danger[] = {"/etc", "/w/x/y/canary", "../canary", "/w/x/y/canary/open", "../../y/canary", "/"};
+				static const char *leaf[] = {"x", "passwd", "file", "sub", "open"};
+				for (size_t k = 0; k + 1 < chain.size(); ++k) script.push_back({'l', chain[k], chain[k + 1]});
+				script.push_back({'d', chain.back() + "/", ""});
+				int through = 1 + (int) rng.below(2);
+				for (int k = 0; k < through; ++k) {
+					std::string via = chain[rng.below(chain.size() - 1)] + "/" + leaf[rng.below(5)];
+					int what = (int) rng.below(4);
+					if (what == 0) script.push_back({'f', via, ""});
+					else if (what == 1) script.push_back({'d', via + "/", ""});
+					else script.push_back({'l', via, rng.chance(1, 4) ? std::string("harmless") : std::string(danger[rng.below(6)])});
+				}
+				// replace one link of the chain (not its first name only: any) by a dangerous one
+				script.push_back({'l', chain[rng.below(chain.size() - 1)], danger[rng.below(6)]});
+				if (rng.chance(1, 3)) script.insert(script.begin() + (long) rng.below(script.size() + 1), {'f', nm(3), ""});
+				n = (int) script.size();
+				p.sets("shape", "alias_chain");
+			}
+		}
 		for (int i = 0; i < n; ++i) {
 			Member m;
 			m.level = (int) rng.below(4);
 			int ks = (int) rng.below(10);
 			m.os = rng.chance(3, 4) ? 'U' : 'M';
 			Bytes path = hostile_path(rng, ks >= 7);
+			if (!script.empty()) { ks = script[i].kind == 'd' ? 8 : script[i].kind == 'l' ? 5 : 1; path = to_bytes(script[i].path); }
 			// scripted patterns now and then
 			int pat = (int) rng.below(12);
 			std::string fixed;
 			if (pat == 0 && !linknames.empty()) fixed = rng.pick(linknames) + "/passwd";           // write below an earlier link
 			if (pat == 1 && !linknames.empty()) fixed = rng.pick(linknames);                         // same name as an earlier link
 			if (pat == 2 && !linknames.empty()) { fixed = rng.pick(linknames) + "/sub"; ks = 4; }   // link below a link
+			if (!script.empty()) fixed.clear();
 			if (!fixed.empty()) path = to_bytes(fixed);
 			if (ks >= 7) {
 				m.kind = 'd'; m.method = "-lhd-";
@@ -122,6 +157,7 @@ struct C10 : Scenario {
 				m.data = m.method == "-lh0-" ? m.plain : encode_lz5(m.plain, &rng);
 			}
 			std::string target = m.kind == 'l' ? link_target(rng) : "";
+			if (!script.empty() && m.kind == 'l') target = script[i].target;
 			m.gtarget = target;
 			std::string pstr = to_str(path);
 			if (m.kind == 'l') { linknames.push_back(pstr); pstr += "|" + target; }
@@ -284,7 +320,15 @@ struct C10 : Scenario {
 				// an operation on '.' or '..' that failed cannot succeed in any tree (EISDIR/EEXIST on a directory): no effect
 				if (!ok && l.err && (l.name == "." || l.name == "..")) ok = true;
 				if (!ok && (l.op == "chmod" || l.op == "utime" || l.op == "chown") && where == root) ok = true;
-				if (!ok) flag("C10.containment", "containment:" + l.op, "operation resolved outside the extraction root " + root + ": " + desc + " at " + where);
+				if (!ok) {
+					// the unlink/symlink pair that turns a placeholder into its deferred link, made while another dangerous link
+					// of this run already exists and reached through it (the name used lies inside the root; other names alias
+					// the link created first): its own signature, so that every other escape stays a different violation
+					bool deferred_phase = dangerous_exists && (l.op == "unlink" || l.op == "symlink") && under(lexical_abs(cwd, l.path), root);
+					flag("C10.containment", deferred_phase ? std::string("containment:deferred_link_through_created_link") : "containment:" + l.op,
+					     "operation resolved outside the extraction root " + root + ": " + desc + " at " + where
+					     + (deferred_phase ? " (a deferred symbolic link is created through a dangerous link created just before it)" : ""));
+				}
 			}
 			// dangerous symlinks last: once one exists, the only operations still to come are those that create further
 			// deferred symlinks - the unlink of the placeholder right before its symlink(), and the tool's
@@ -340,6 +384,7 @@ struct C10 : Scenario {
 		count(std::string("kind.") + (extracting ? "extract" : "readonly"));
 		count(strf("kind.euid.%d", (int) p.geti("euid")));
 		if (!wd.empty()) count("kind.w_option");
+		if (p.gets("shape") == "alias_chain") count("kind.shape.alias_chain");
 		for (auto &l : fs.log) if (l.err == EACCES || l.err == EPERM) { count("fault.F-PERM"); break; }
 		res.trace = finish_trace();
 		return res;
